@@ -198,7 +198,7 @@ func (s *Submit) GetCommand() sms.ICommander {
 
 func (s *Submit) GenEmptyResponse() sms.PDU {
 	return &SubmitResp{
-		Header: sgip.NewHeader(sgip.MaxHeaderRespLength, sgip.SGIP_SUBMIT_REP, s.GetSequenceID(), s.GetSequenceID()),
+		Header: sgip.Header{TotalLength: sgip.MaxHeaderRespLength, CommandID: sgip.SGIP_SUBMIT_REP, Sequence: s.Header.Sequence},
 	}
 }
 
